@@ -2,7 +2,7 @@
 # methods, classes whose construction goes through __new__, __init__, both, neither, a base class, a metaclass;
 # each used after another check has already reported something in the same file and in the same block.
 from dataclasses import dataclass
-from typing import NamedTuple
+from typing import NamedTuple, overload
 
 flag = bool(True)
 
@@ -60,7 +60,17 @@ class Methods:
     def c(cls, name: str = "default", verbose: bool = False) -> None: ...
 
 
+@overload
+def over(a: int, b: int = 1) -> int: ...
+@overload
+def over(a: str, b: int = 1) -> str: ...
+def over(a, b=1):
+    return a
+
+
 # ---- calls
+over(1, 1)
+over("x", b=1)
 plain(verbose=False)
 OnlyInit(verbose=False)
 OnlyNew(verbose=False)
